@@ -350,9 +350,11 @@ def main(check, tier, base_seed):
                     timeout_viol += 1
                 elif "harness" in again:
                     keep.append((bname, idx, again))
-            harness_problems = keep
             if timeout_viol:
+                # further runs that hit the wall limit are instances of the confirmed non-termination
+                keep = [k for k in keep if k[2].get("harness") != "timeout"]
                 exit_code = 1
+            harness_problems = keep
         if harness_problems:
             for hp in harness_problems[:5]:
                 print("HARNESS-ERROR batch=%s run=%d: %s" % (hp[0], hp[1], json.dumps(hp[2])[:1500]))
